@@ -1,5 +1,116 @@
+import Casket.Model.Dispenser
+import Casket.Model.Parser
+import Casket.Model.ExecSetup
+import Casket.Spec.Dispenser
 import Driver.Proto
-/- Streams of C11 (stub: not built yet). -/
+/-
+Streams of C11.
+  c11.disp   tokens  ops     tokens = comma list file:line:texthex; ops = string over n a l b B r 2 v i f N
+             out = per-op results joined by ";" then "|" Val ":" Line ":" Nesting
+  c11.setup  directive confighex    out = total | PANIC:… | TIMEOUT:… | DISAGREE:…   (search; the model's answer is "total")
+-/
 namespace Driver.C11
-def streams : List Driver.Stream := []
+open Casket.Lexer Casket.Dispenser
+
+def parseTok (s : String) : Option Token :=
+  match s.splitOn ":" with
+  | [f, l, h] => do pure ⟨f, ← l.toNat?, ← Driver.unhex h⟩
+  | _ => none
+
+def parseToks (s : String) : Option (List Token) :=
+  if s = "" then some [] else (s.splitOn ",").mapM parseTok
+
+def b01 (b : Bool) : String := if b then "1" else "0"
+
+def showInt (i : Int) : String := if i < 0 then "-" ++ toString i.natAbs else toString i.toNat
+
+/-- one method call: printed result and new state -/
+def step (d : Disp) (op : Char) : Option String × Disp :=
+  match op with
+  | 'n' => let r := d.next; (some (b01 r.1), r.2)
+  | 'a' => let r := d.nextArg; (some (b01 r.1), r.2)
+  | 'l' => let r := d.nextLine; (some (b01 r.1), r.2)
+  | 'b' => let r := d.nextBlock; (some (b01 r.1), r.2)
+  | 'B' => let r := d.nextBlockNesting 1; (some (b01 r.1), r.2)
+  | 'r' => let r := d.remainingArgs; (some ("[" ++ ",".intercalate (r.1.map Driver.hex) ++ "]"), r.2)
+  | '2' =>
+    let r := Disp.args 2 d []
+    let x := match r.2.1 with | a :: _ => Driver.hex a | [] => Driver.hex "<unset>".toUTF8.toList
+    let y := match r.2.1 with | _ :: b :: _ => Driver.hex b | _ => Driver.hex "<unset>".toUTF8.toList
+    (some (b01 r.1 ++ "[" ++ x ++ "," ++ y ++ "]"), r.2.2)
+  | 'v' => (some (Driver.hex d.val), d)
+  | 'i' => (some (toString d.line), d)
+  | 'f' => (some d.file, d)
+  | 'N' => (some (showInt d.nesting), d)
+  | _ => (none, d)
+
+def run (d : Disp) (ops : List Char) : List String × Disp :=
+  ops.foldl (fun (acc : List String × Disp) op =>
+    let r := step acc.2 op
+    (match r.1 with | some s => acc.1 ++ [s] | none => acc.1, r.2)) ([], d)
+
+def dispModel : List String → String
+  | [ts, ops] =>
+    match parseToks ts with
+    | none => "bad-case"
+    | some toks =>
+      let (outs, d) := run (Disp.new "Testfile" toks) ops.toList
+      ";".intercalate outs ++ "|" ++ Driver.hex d.val ++ ":" ++ toString d.line ++ ":" ++ showInt d.nesting
+  | _ => "bad-case"
+
+/-- the property on the implementation's answer: no call panicked (PANIC is what the harness prints for one) -/
+def dispJudge (_ : List String) (out : String) : String :=
+  if out.startsWith "PANIC" then "bad:panic:a Dispenser method panicked" else "ok"
+
+def setupJudge (_ : List String) (out : String) : String := Casket.DispenserSpec.setupVerdict out
+
+/-! c11.exec  confighex cbfail   out = V=<trace>/<ok|err>|S=<trace>/<ok|err> -/
+
+open Casket.Parser Casket.ExecSetup in
+def bytesStr (b : Bytes) : String := String.ofList (b.map fun x => Char.ofNat x.toNat)
+
+open Casket.ExecSetup in
+def showEv : Ev → String
+  | .setup c => s!"s:{bytesStr c.dir}:{c.block}:{c.keyIdx}:{Driver.hex c.key}:" ++ ".".intercalate (c.tokens.map fun t => Driver.hex t.text)
+  | .callback d => "c:" ++ bytesStr d
+
+open Casket.Parser Casket.ExecSetup in
+def execModel : List String → String
+  | [cfgHex, cbfail] =>
+    match Driver.unhex cfgHex with
+    | none => "bad-case"
+    | some input =>
+      let dirs : List Bytes := [strBytes "d1", strBytes "d2", strBytes "d3"]
+      match parse { valid := some dirs } 100000 "Casketfile" input with
+      | .ok sbs =>
+        let blocks : List Block := sbs.map fun b => ⟨b.keys, b.tokens⟩
+        let fails : Call → Bool := fun c => c.tokens.any fun t => t.text == strBytes "FAIL"
+        let failDir : Option Bytes := if cbfail == "-" then none else some (strBytes cbfail)
+        let cb := recCallback [strBytes "d1", strBytes "d3"] failDir
+        let run := fun (jv : Bool) =>
+          let r := execute (recSetup fails) cb jv blocks dirs []
+          ",".intercalate ((traceOf r).map showEv) ++ (match r with | .ok _ => "/ok" | .error _ => "/err")
+        "V=" ++ run true ++ "|S=" ++ run false
+      | _ => "V=/err|S=/err"
+  | _ => "bad-case"
+
+/-- the property on the implementation's traces -/
+def execJudge (f : List String) (out : String) : String :=
+  match f, out.splitOn "|" with
+  | [_, cbfail], [v, s] =>
+    match (v.drop 2).toString.splitOn "/", (s.drop 2).toString.splitOn "/" with
+    | [vt, vr], [st, sr] =>
+      let setups := fun (t : String) => (t.splitOn ",").filter fun e => e.startsWith "s:"
+      let cbFailed := cbfail != "-" && (st.splitOn ",").contains ("c:" ++ cbfail)
+      if Casket.DispenserSpec.startAgrees (setups vt) (setups st) (vr == "ok") (sr == "ok") cbFailed then "ok"
+      else "bad:disagree:validation and start do not make the same setup calls / do not agree on the outcome"
+    | _, _ => "bad:unparsable:" ++ out
+  | _, _ => "bad:unparsable:" ++ out
+
+def streams : List Driver.Stream := [
+  { name := "c11.disp", model := dispModel, judge := dispJudge },
+  { name := "c11.setup", model := fun _ => "total", judge := setupJudge },
+  { name := "c11.exec", model := execModel, judge := execJudge }
+]
+
 end Driver.C11
